@@ -26,7 +26,7 @@ fn tokens(fmt: &str) -> Vec<String> {
         f.task.budget_brackets.0, f.task.budget_brackets.1, f.task.budget_separator,
         f.atom.prefix_placeholder, f.atom.prefix_variable_independent, f.atom.prefix_variable_dependent, f.atom.prefix_variable_query,
         f.atom.prefix_interval, f.atom.prefix_operator,
-        " ", "  ", "a", "b1", "go-to", "词", "0", "1", "0.5", "1.5", "-1", "+7", ".", "..", "-", "--", "é", "\t", "\n", "\u{3000}", "😀", "99999999999999999999999999", "²", "٣", "½", "①", "1.0000000000000002", "18446744073709551616", "0.0000001", "\u{2003}",
+        " in ", " in \"", "@", " @ 3 in \"", "from [", "\"", "\n\t", "Narsese", " ", "  ", "a", "b1", "go-to", "词", "0", "1", "0.5", "1.5", "-1", "+7", ".", "..", "-", "--", "é", "\t", "\n", "\u{3000}", "😀", "99999999999999999999999999", "²", "٣", "½", "①", "1.0000000000000002", "18446744073709551616", "0.0000001", "\u{2003}",
     ];
     t.extend(f.copulas());
     t.into_iter().filter(|s| !s.is_empty()).map(str::to_owned).collect()
